@@ -213,6 +213,50 @@ def rule_eq_hash(ctx: Ctx, repo: Repo) -> None:
     compared = (stored | others) if eq_dict else eq_fields
     ctx.check(hashed == compared and bool(hashed), "R-C14.2", ci.fq, "CallTrace hashes exactly the fields it compares (duplicates collapse in the per-function set)",
               construct=f"compared {sorted(compared)} hashed {sorted(hashed)}")
+    # semantic form: two traces are equal iff all four fields are equal, and equal traces hash alike
+    from .common import RepoInterp
+    f1, f2 = S("func:f1"), S("func:f2")
+    def tr(func, a, r, y):
+        return R("inst", __cls__=K("monkeytype.tracing.CallTrace"), func=func, arg_types=R("dict", items=((K("a"), a),)), return_type=r, yield_type=y)
+    base = tr(f1, S("t:int"), S("t:str"), S("t:int"))
+    variants = {"func": tr(f2, S("t:int"), S("t:str"), S("t:int")), "arg_types": tr(f1, S("t:str"), S("t:str"), S("t:int")),
+                "return_type": tr(f1, S("t:int"), K(None), S("t:int")), "yield_type": tr(f1, S("t:int"), S("t:str"), K(None)),
+                "yield_type (other type)": tr(f1, S("t:int"), S("t:str"), S("t:str"))}
+    def run_method(m, env):
+        ri = RepoInterp(repo, m, may_fork=(), heap=True, inline={f.fq for f in ci.methods.values()})
+        ri.dispatch_instances = True
+        ri.self_class = ci
+        def hook(call, fname, fval, a, kw, st):
+            if fname == "isinstance" and len(a) == 2:
+                return K(isinstance(a[0], R) and a[0].kind == "inst")
+            if fname == "hash" and len(a) == 1:
+                return R("hash", of=st.freeze(a[0]))
+            if fname == "frozenset" and len(a) == 1:
+                seq = ri.interp.iterate(a[0], st)
+                return K(frozenset(seq)) if seq is not None else None
+            return None
+        ri.call_hook = hook
+        base_attr = ri.on_attr
+        def on_attr(obj, attr, node, st):
+            if isinstance(obj, R) and obj.kind == "inst" and attr == "__dict__":
+                return R("dict", items=tuple((K(k), v) for k, v in obj.fields.items() if k != "__cls__"))
+            if isinstance(obj, R) and obj.kind == "inst" and attr == "__class__":
+                return obj.fields["__cls__"]
+            return base_attr(obj, attr, node, st)
+        ri.on_attr = ri.interp.on_attr = on_attr
+        outs = ri.run(env)
+        if len(outs) != 1 or outs[0].term is None:
+            raise AnalysisError(f"{m.fq}: no single outcome")
+        return outs[0].freeze(outs[0].term[1])
+    pe = eq.positional_params()
+    ph = hs.positional_params()
+    same = run_method(eq, {pe[0]: base, pe[1]: tr(f1, S("t:int"), S("t:str"), S("t:int"))})
+    ctx.check(same == K(True), "R-C14.2", eq.fq, "two traces with the same four fields are equal", construct=f"{same}")
+    ctx.check(run_method(hs, {ph[0]: base}) == run_method(hs, {ph[0]: tr(f1, S("t:int"), S("t:str"), S("t:int"))}), "R-C14.2", hs.fq, "equal traces hash alike", construct="hash differs")
+    for fld, other in variants.items():
+        r = run_method(eq, {pe[0]: base, pe[1]: other})
+        ctx.check(r == K(False), "R-C14.2", eq.fq, "traces that differ in any of function / argument types / return type / yield type are different traces (none is absorbed by the per-function set)",
+                  construct=f"traces differing only in {fld} compare {r}")
     bm = repo.fn(ST, "build_module_stubs_from_traces")
     idx = [x for x in ast.walk(bm.node) if isinstance(x, ast.Call) and dotted(x.func) in ("collections.defaultdict", "defaultdict") and x.args and dotted(x.args[0]) == "set"]
     ctx.check(len(idx) >= 1, "R-C14.2", bm.fq, "traces are grouped per function in a set", construct=f"{len(idx)} defaultdict(set)")
